@@ -343,6 +343,14 @@ func c20Streams(c *core.Ctx, o *c20Obs) {
 		codec.CheckRecvStream(o, stream, cfg, r.Fork(), c20MaxAnnounce, true)
 		h.Write(stream)
 	}
+	if c.Index%64 == 39 {
+		// several streams of this process received at the same time (the
+		// child runs with one P for the allocation accounting: lifted here)
+		prev := runtime.GOMAXPROCS(8)
+		codec.CheckConcurrentStreams(o, r.Fork(), 24, 30)
+		runtime.GOMAXPROCS(prev)
+		runtime.GC()
+	}
 	// the designated probes of frames announcing far more than they carry
 	switch c.Index {
 	case 7:
@@ -377,7 +385,7 @@ func init() {
 			"framing: a sequence of 1-28 packets (protocol-shaped, generated, empty, encodings of exactly 32 KiB-2..+2, payloads up to 300 KiB) is written with SendMsg, the bytes are checked by a reference frame parser and a generic-runtime decoder, then read back with RecvMsg through 5-6 readers (whole, 1-byte, random chunks, fixed chunk, (0,nil) reads, data together with EOF; fresh packets or one packet ResetVT between calls); every slice RecvMsg handed to Read is overwritten with 0xFF after the call and all packets are compared again then and at the end of the stream; then io.EOF; 8 cuts per stream (boundary / inside header / inside body, plain EOF or injected read error). " +
 			"decode: 800 byte strings (random, tag soup, mutated/truncated/spliced valid encodings, huge length varints, nesting to depth 50000, repeated fields, odd map entries, up to 300 KB) into Stat.Unmarshal and Packet.Unmarshal with panic capture and a TotalAlloc delta per call; accepted inputs must re-encode and decode (vt) to the same value. " +
 			"decode also: 200 valid but non-canonical encodings per case of generated values (fields in any order, scalars written twice - the last counts -, defaults written explicitly, map entries without key or value or value-first, repeated map keys, an embedded stat split over two occurrences), built by the harness's own encoder so that the encoded value is known; Unmarshal, UnmarshalVT and the generic runtime must all return it. " +
-			"streams: 150 arbitrary frame streams (valid, arbitrary and empty bodies; clean end, partial header, or a last frame announcing up to 16 MiB with 0-199 bytes present) into RecvMsg, compared call by call with the reference (split at the big-endian length, decode the body), allocation per call bounded by the bytes the reader supplied; case 7 additionally runs a 256 MiB announcement in-process (cases 23 and 31: the same with 32 KiB / 70 000 bytes of the body present) and case 15 a 4 GiB announcement in a sub-process limited to 3 GiB of address space. " +
+			"streams: 150 arbitrary frame streams (valid, arbitrary and empty bodies; clean end, partial header, or a last frame announcing up to 16 MiB with 0-199 bytes present) into RecvMsg, compared call by call with the reference (split at the big-endian length, decode the body), allocation per call bounded by the bytes the reader supplied; every 64th case additionally receives 24 streams of 30 pattern-filled DATA packets (32 KiB - 512 KiB) at the same time in one process (8 Ps) and compares every packet with its own stream's frames; case 7 additionally runs a 256 MiB announcement in-process (cases 23 and 31: the same with 32 KiB / 70 000 bytes of the body present) and case 15 a 4 GiB announcement in a sub-process limited to 3 GiB of address space. " +
 			"non-trivial: values = a Stat with xattrs and a Packet with a payload over 32 KiB completed all three round trips; framing = at least 3 readers returned the whole sequence and it had a non-empty packet; decode = at least one input accepted and one rejected; streams = at least one arbitrary frame decoded and one incomplete frame rejected. distinct by hash of the generated values / stream and readers / inputs",
 		Assumptions: []string{
 			"equality of values is proto3 equality: nil and empty bytes/maps are the same value, presence of the stat sub-message matters, unknown fields compare per field number",
